@@ -157,10 +157,8 @@ func (d *Decoder) unmarshal(val reflect.Value, tagType byte) error {
 		switch vk := val.Kind(); vk {
 		default:
 			return errors.New("cannot parse TagFloat as " + vk.String())
-		case reflect.Float32:
-			val.Set(reflect.ValueOf(value))
-		case reflect.Float64:
-			val.Set(reflect.ValueOf(float64(value)))
+		case reflect.Float32, reflect.Float64:
+			val.SetFloat(float64(value))
 		case reflect.Interface:
 			val.Set(reflect.ValueOf(value))
 		}
@@ -192,7 +190,7 @@ func (d *Decoder) unmarshal(val reflect.Value, tagType byte) error {
 		default:
 			return errors.New("cannot parse TagDouble as " + vk.String())
 		case reflect.Float64:
-			val.Set(reflect.ValueOf(value))
+			val.SetFloat(value)
 		case reflect.Interface:
 			val.Set(reflect.ValueOf(value))
 		}
@@ -245,11 +243,11 @@ func (d *Decoder) unmarshal(val reflect.Value, tagType byte) error {
 				switch ve.Kind() {
 				case reflect.Int8:
 					for i := 0; i < length; i++ {
-						val.Index(i).Set(reflect.ValueOf(int8(ba[i])))
+						val.Index(i).SetInt(int64(int8(ba[i])))
 					}
 				case reflect.Uint8:
 					for i := 0; i < length; i++ {
-						val.Index(i).Set(reflect.ValueOf(ba[i]))
+						val.Index(i).SetUint(uint64(ba[i]))
 					}
 				}
 			case reflect.Bool:
@@ -498,7 +496,7 @@ func (d *Decoder) unmarshal(val reflect.Value, tagType byte) error {
 				if err = d.unmarshal(v.Elem(), tt); err != nil {
 					return fmt.Errorf("fail to decode tag %q: %w", tn, err)
 				}
-				val.SetMapIndex(reflect.ValueOf(tn), v.Elem())
+				val.SetMapIndex(reflect.ValueOf(tn).Convert(vt.Key()), v.Elem())
 			}
 		case reflect.Interface:
 			buf := make(map[string]any)
